@@ -17,7 +17,7 @@ from props import common
 
 ID = "C06"
 LEVEL = "fault_enumeration"
-QUICK_RUNS = 1400
+QUICK_RUNS = 3500
 QUICK_BUDGET_S = 50.0
 THOROUGH_RUNS = 10 ** 9
 BATCH = 10
@@ -95,11 +95,11 @@ def build_file(ch, ctx):
         sc = common.container_scenario(ch, max_records=10)
         sc.sync_interval = common.draw_sync_interval(ch, common.encoded_sizes(sc))
         data = common.fa_file(sc)
-        return data, "fastavro", sc.describe(), [common.strip_hints(r) for r in sc.records], sc.node
+        return data, "fastavro", sc.describe(), [common.strip_hints(r, sc.node) for r in sc.records], sc.node
     if src == 1:
         # foreign writer: any partition incl. empty blocks, multi-chunk header, codec key absent
         sc = common.container_scenario(ch, max_records=10)
-        recs = [common.strip_hints(r) for r in sc.records]
+        recs = [common.strip_hints(r, sc.node) for r in sc.records]
         blocks = []
         i = 0
         while i < len(recs):
@@ -140,7 +140,7 @@ def build_file(ch, ctx):
     ctx.probe("history_file")
     d = sc.describe()
     d["history"] = {"first": len(first), "block_copied": len(rest)}
-    return fo.getvalue(), "history", d, [common.strip_hints(r) for r in recs], sc.node
+    return fo.getvalue(), "history", d, [common.strip_hints(r, sc.node) for r in recs], sc.node
 
 
 def _is_prefix(Y, R):
